@@ -82,6 +82,16 @@ impl C05 {
                 rats.push(rat(-(d * m + 1), d));
             }
         }
+        // more than a thousand fraction places before a recurring block of 16 / 18 / 22 digits starts
+        {
+            let ten = BigInt::from(10);
+            let two = BigInt::from(2);
+            rats.push(Rat::new(BigInt::one(), num_traits::pow(ten.clone(), 1000) * BigInt::from(17)));
+            rats.push(Rat::new(BigInt::from(3), num_traits::pow(two.clone(), 1100) * BigInt::from(17)));
+            rats.push(Rat::new(BigInt::one(), num_traits::pow(two, 1040) * BigInt::from(19)));
+            rats.push(Rat::new(BigInt::from(5), num_traits::pow(BigInt::from(12), 1003) * BigInt::from(23)));
+            rats.push(Rat::new(BigInt::from(-7), num_traits::pow(ten, 1200) * BigInt::from(13)));
+        }
         // thousands of bits
         let big = (BigInt::one() << 4096usize) + BigInt::one();
         rats.push(Rat::from_integer(big.clone()));
@@ -229,7 +239,7 @@ impl Space for C05 {
         Meta {
             id: "C05",
             level: "exploration",
-            rule: "rationals (all p/q with |p|,q <= N; magnitudes straddling the 1e-9/1e9 switches; denominators with long/huge periods 97, 3937, 9973, 65537, 1000003; 2^4096+1 and its reciprocal; per base the family (b^k+d1)/(b^j+d2), d in {-1,0,1}, both signs; per base 2..36 the family (b^p-2)/(b^p-1), (b^p-1-b^(p-1))/(b^p-1), (b^p/2)/(b^p-1) for p in 1..10, alone and added to 12345: short recurring blocks with the largest remainders) x bases x 11 digits modes through Numeric::to_string/string_repr; every ordered pair of 6 values x every ordered pair of bases x {sci, eng, default} printed one right after the other on one thread, the second one judged; plus the query path `x -> <mode> base B`; every printed numeral is read back by an independent numeral reader (sign, integer digits, radix point, fraction digits, [block, period N]..., e+-k scaling by base^k). Non-trivial = nonzero value; distinct by (value, base, mode)".into(),
+            rule: "rationals (all p/q with |p|,q <= N; magnitudes straddling the 1e-9/1e9 switches; denominators with long/huge periods 97, 3937, 9973, 65537, 1000003; 2^4096+1 and its reciprocal; values whose recurring block starts after more than a thousand fraction places (1/(17*10^1000), 3/(17*2^1100), 5/(23*12^1003), ...); per base the family (b^k+d1)/(b^j+d2), d in {-1,0,1}, both signs; per base 2..36 the family (b^p-2)/(b^p-1), (b^p-1-b^(p-1))/(b^p-1), (b^p/2)/(b^p-1) for p in 1..10, alone and added to 12345: short recurring blocks with the largest remainders) x bases x 11 digits modes through Numeric::to_string/string_repr; every ordered pair of 6 values x every ordered pair of bases x {sci, eng, default} printed one right after the other on one thread, the second one judged; plus the query path `x -> <mode> base B`; every printed numeral is read back by an independent numeral reader (sign, integer digits, radix point, fraction digits, [block, period N]..., e+-k scaling by base^k). Non-trivial = nonzero value; distinct by (value, base, mode)".into(),
             assumptions: vec![
                 "the decimal exponent after `e` scales by base^exponent".into(),
                 "for bases > 14 where `e` is also a digit every consistent split is tried".into(),
